@@ -31,3 +31,9 @@ package templater
 //@ func init#1$9
 //@   pure
 //@   ensures result.1 == nil ==> result.0 == shQuote(str)                                            [C19]
+//@ func ResolveRef
+//@   trusted
+//@   modifies github.com/go-task/task/v3/internal/templater.*
+//@ func ReplaceVarsWithExtra
+//@   trusted
+//@   modifies github.com/go-task/task/v3/internal/templater.*
